@@ -8,6 +8,7 @@ package mtproto
 import (
 	"context"
 	"crypto/rsa"
+	"encoding/binary"
 	"io"
 	"reflect"
 	"sync"
@@ -320,7 +321,7 @@ func (m *MTProto) readMsg() error {
 func (m *MTProto) processResponse(msg messages.Common) error {
 	var data tl.Object
 	var err error
-	if et, ok := m.expectedTypes.Get(msg.GetMsgID()); ok && len(et) > 0 {
+	if et, ok := m.expectedTypes.Get(requestMsgID(msg)); ok && len(et) > 0 {
 		data, err = tl.DecodeUnknownObject(msg.GetMsg(), et...)
 	} else {
 		data, err = tl.DecodeUnknownObject(msg.GetMsg())
@@ -404,6 +405,17 @@ messageTypeSwitching:
 	}
 
 	return nil
+}
+
+// requestMsgID returns id of the request which msg answers to: hints for decoder are registered under id of
+// the request, and server puts this id in rpc_result, own id of server message is a different one. For any
+// other message returns id of message itself.
+func requestMsgID(msg messages.Common) int {
+	body := msg.GetMsg()
+	if len(body) >= tl.WordLen+tl.LongLen && binary.LittleEndian.Uint32(body) == objects.CrcRpcResult {
+		return int(int64(binary.LittleEndian.Uint64(body[tl.WordLen:])))
+	}
+	return msg.GetMsgID()
 }
 
 // tryToProcessErr пытается автоматически решить ошибку полученную от сервера. в случае успеха вернет nil,
